@@ -207,3 +207,54 @@ func configurePipe(c *harness.Ctx, p *simnet.Pipe, label string) map[string]inte
 }
 
 var _ = rand.Reader
+
+// companionPair: in one run of four the same factories serve a second
+// real<->real connection at the same time, with its own position-coded content
+// (directions 2 and 3): whatever two connections share inside the process must
+// not let bytes of one show up, or go missing, in the other.  Returns the
+// completion predicate and a function that reports the companion if it is
+// still incomplete when the run ends.
+func companionPair(c *harness.Ctx, prop string, cf base.ClientFactory, sf base.ServerFactory, ending *bool) (func() bool, func()) {
+	t := c.T
+	if t.Draw("companion", 4) != 3 {
+		return func() bool { return true }, func() {}
+	}
+	l := c.Net.NewLink("c2", "s2")
+	configurePipe(c, l.AB, "c2s2")
+	configurePipe(c, l.BA, "s2c2")
+	cs := &streamSide{name: "c2", dirOut: 2, dirIn: 3, plan: drawWrites(c, "cw2", 4), rdBuf: []int{32768, 1427, 4096}[t.Draw("c2.rdbuf", 3)], ending: ending}
+	ss := &streamSide{name: "s2", dirOut: 3, dirIn: 2, plan: drawWrites(c, "sw2", 4), rdBuf: []int{32768, 1427, 4096}[t.Draw("s2.rdbuf", 3)], ending: ending}
+	cs.expectIn, ss.expectIn = planTotal(ss.plan), planTotal(cs.plan)
+	c.Info["companion_client_writes"], c.Info["companion_server_writes"] = cs.plan, ss.plan
+	c.Feature("second-connection-alongside")
+	var cUp, sUp bool
+	c.S.Go("s2/accept", func() {
+		conn, err := sf.WrapConn(l.B)
+		if err != nil {
+			if !*ending {
+				c.Violate(prop+"/handshake-failed", "second connection, server WrapConn: %v", err)
+			}
+			return
+		}
+		sUp = true
+		ss.start(c, conn, prop)
+	})
+	c.S.Go("c2/dial", func() {
+		conn, err := cf.Dial("tcp", "x:2", dialTo(l.A), nil)
+		if err != nil {
+			if !*ending {
+				c.Violate(prop+"/handshake-failed", "second connection, client Dial: %v", err)
+			}
+			return
+		}
+		cUp = true
+		cs.start(c, conn, prop)
+	})
+	done := func() bool { return cUp && sUp && cs.complete() && ss.complete() }
+	report := func() {
+		if !done() && !c.S.Violated() {
+			c.Violate(prop+"/stalled-bytes", "the second connection served alongside is incomplete at the end of the run: handshakes done client=%v server=%v; client read %d of %d, server read %d of %d", cUp, sUp, cs.gotIn, cs.expectIn, ss.gotIn, ss.expectIn)
+		}
+	}
+	return done, report
+}
